@@ -280,6 +280,37 @@ def run_tx_policy(policy, ka, exc=0):
     return vio, len(seen), outcomes
 
 
+def job_inverter_address(j):
+    """Every communication address 1..255 given to the INVERTER classes (ET / DT / ES constructors): each request the
+    object transmits - identification, a poll, a setting read, a write - carries that address (0 stands for the family's
+    default).  The simulated inverter listens on that address; requests carrying another one are logged, not answered."""
+    from ..configs import make_rig
+    fam, addrs = j
+    out = []
+    n = 0
+    for addr in addrs:
+        world.reset()
+        cfg = dict(family=fam, tag={'ET': 'ETU', 'DT': 'DTU', 'ES': 'ESU'}[fam], power=5000, refused=(), battery_mode=2, comm_addr=addr)
+        r = make_rig(cfg, 'udp' if addr % 2 else 'tcp' if fam != 'ES' else 'udp', fill=lambda a: 1)
+        inv = r.inv
+        r.call(inv.read_device_info)
+        r.call(inv.read_runtime_data)
+        r.call(inv.read_setting, 'eco_mode_1' if fam != 'DT' else 'grid_export_limit')
+        if fam == 'ES':
+            r.call(inv.read_setting, 'modbus-47000')      # (the ES family speaks Modbus for raw registers and newer settings only)
+            r.call(inv.write_setting, 'modbus-47001', 1)
+        r.call(inv.write_setting, 'grid_export_limit' if fam != 'ES' else 'eco_mode_1_switch', 1 if fam != 'ES' else 0)
+        want = addr or (0x7F if fam == 'DT' else 0xF7)
+        seen = [q['unit'] for q in r.dev.log if 'unit' in q]
+        n += len(seen)
+        if not seen:
+            out.append((f'unit-is-the-configured-address/{fam}/inverter-constructor', addr, 'no Modbus request was transmitted'))
+        elif any(u != want for u in seen):
+            out.append((f'unit-is-the-configured-address/{fam}/inverter-constructor', addr,
+                        f'{fam}(comm_addr={addr:#x}): requests carry address {sorted(set(seen))} instead of {want:#x}'))
+    return n, out
+
+
 def run_unit_policy(tr, ka, unit, answers_from):
     """The communication address in the requests is the configured one, whatever address the answers come from (another
     unit answering, AA55-protocol answers 'AA55 7F C0 ..' between Modbus requests on an ES).  Every command is built by the
@@ -481,6 +512,11 @@ def run(tier, seed, rep):
             for clause, cause in vio:
                 rep.add(clause, clause.split('/')[0], dict(part='overlap', callers=nc, steps=steps), dict(cause=cause))
     import itertools
+    addr_jobs = [(fam, list(range(a, 256, 8))) for fam in ('ET', 'DT', 'ES') for a in range(8)]
+    for k, res in pmap(job_inverter_address, addr_jobs):
+        novl += k
+        for key, addr, cause in res:
+            rep.add(key, key.split('/')[0], dict(part='inverter-address', family=key.split('/')[1], addr=addr), dict(cause=cause, comm_addr=addr))
     for tr in ('udp', 'tcp'):
         for ka in (False, True):
             for unit in (0xF7, 0x7F, 0x11):
@@ -568,6 +604,9 @@ def replay(r):
         vio = {}
         one(vio, r['ctor'], tuple(a))
         return dict(violations=[(k, v[0]['detail']) for k, v in vio.items()])
+    if r['part'] == 'inverter-address':
+        k, res = job_inverter_address((r['family'], [r['addr']]))
+        return dict(requests=k, violations=[(a, c) for a, _, c in res])
     if r['part'] == 'unit-policy':
         vio, k = run_unit_policy(r['transport'], r['ka'], r['unit'], r['src'])
         return dict(transmissions=k, violations=vio)
